@@ -9,7 +9,8 @@ Hand model of the path machinery of pdfminer.six (after the `fix:` commits of C1
   layout.LTCurve / LTLine / LTRect              pts, bbox (`get_bound`)                    (`mkCurve`, `mkLine`, `mkRect`)
 
 Regenerated from the Python source (Gen/PathsGen.lean): `apply_matrix_pt`, `mult_matrix`,
-`PREDEFINED_COLORSPACE`, `opNargs`, `paintOps`, `rePath`, `pageCtm`.
+`PREDEFINED_COLORSPACE`, `opNargs`, `paintOps`, `rePath`, `pageCtm`, and the straight-line tests of
+`paint_path` (`lineShapes`, `rectShapes`, `redundant*`, `has_square_coordinates`, `closedLoopPts`, `rectCorners`, ...).
 Numbers are exact rationals (the harness only feeds dyadic values on which float arithmetic is exact).
 -/
 import PdfVerif.Model.Prelude
@@ -176,29 +177,36 @@ def countM (path : List PSeg) : Nat := (path.filter PSeg.isM).length
 
 /-- `has_square_coordinates` -/
 def squareCoords (p0 p1 p2 p3 : Point) : Bool :=
-  decide ((p0.1 = p1.1 ∧ p1.2 = p2.2 ∧ p2.1 = p3.1 ∧ p3.2 = p0.2) ∨
-          (p0.2 = p1.2 ∧ p1.1 = p2.1 ∧ p2.2 = p3.2 ∧ p3.1 = p0.1))
+  has_square_coordinates p0.1 p0.2 p1.1 p1.2 p2.1 p2.2 p3.1 p3.2   -- regenerated from converter.py
 
 /-- `x[0]` of a path segment: the operator letter. -/
 def PSeg.letter : PSeg → Char
   | .m _ => 'm' | .l _ => 'l' | .c .. => 'c' | .v .. => 'v' | .y .. => 'y' | .h => 'h'
 
-/-- `len(shape) > 3 and shape[-2:] == "lh" and pts[-2] == pts[0]` -/
+/-- `len(shape) > 3 and shape[-2:] == "lh" and pts[-2] == pts[0]`; the constants are regenerated from
+converter.py (`redundantMinLen`, `redundantSuffix`, `redundantPts`). -/
 def redundantL (shape : List Char) (pts : List Point) : Bool :=
-  decide (shape.length > 3 ∧ shape.drop (shape.length - 2) = ['l', 'h'] ∧ pts[pts.length - 2]? = pts.head?)
+  decide (shape.length > redundantMinLen ∧
+    shape.drop (shape.length - redundantSuffix.length) = redundantSuffix ∧
+    pts[pts.length - redundantPts.1]? = pts[redundantPts.2]?)
 
-/-- The classification at the end of paint_path on the string of operator letters `shape`. -/
+/-- The classification at the end of paint_path on the string of operator letters `shape`.  The shape
+strings, the point indices of `LTLine`, `is_closed_loop`, the `LTRect` corners and `rect.pts = pts[:4]` are
+regenerated from converter.py (`lineShapes`, `linePts`, `rectShapes`, `closedLoopPts`, `rectCorners`,
+`rectPtsTake`, `has_square_coordinates`). -/
 def classifyShape (a : PaintArgs) (shape : List Char) (pts : List Point) (tpath : List PSeg) : List Shape :=
-  if shape = ['m', 'l', 'h'] ∨ shape = ['m', 'l'] then
+  if shape ∈ lineShapes then
+    match pts[linePts.1]?, pts[linePts.2]? with
+    | some p0, some p1 => [mkLine a p0 p1 tpath]
+    | _, _ => []                                -- unreachable: two letters, two points
+  else if shape ∈ rectShapes then
     match pts with
-    | p0 :: p1 :: _ => [mkLine a p0 p1 tpath]
-    | _ => []                                   -- unreachable: two letters, two points
-  else if shape = ['m', 'l', 'l', 'l', 'h'] ∨ shape = ['m', 'l', 'l', 'l', 'l'] then
-    match pts with
-    | [p0, p1, p2, p3, p4] =>
-      if p0 = p4 ∧ squareCoords p0 p1 p2 p3 = true then
+    | [p0, p1, p2, p3, _] =>
+      if pts[closedLoopPts.1]? = pts[closedLoopPts.2]? ∧ squareCoords p0 p1 p2 p3 = true then
         -- `rect = LTRect(.., (*pts[0], *pts[2]), ..); rect.pts = pts[:4]` (bbox stays the one of the corners)
-        [{ mkRect a (p0.1, p0.2, p2.1, p2.2) tpath with pts := [p0, p1, p2, p3] }]
+        match pts[rectCorners.1]?, pts[rectCorners.2]? with
+        | some c0, some c2 => [{ mkRect a (c0.1, c0.2, c2.1, c2.2) tpath with pts := pts.take rectPtsTake }]
+        | _, _ => []                            -- unreachable
       else [mkCurve a pts tpath]
     | _ => []                                   -- unreachable: five letters, five points
   else [mkCurve a pts tpath]
@@ -214,7 +222,7 @@ def paintSingle (ctm : Matrix) (a : PaintArgs) (path : List PSeg) : List Shape :
     let tpath := path.map (PSeg.mapPts (apply_matrix_pt ctm))
     let shape0 := path.map PSeg.letter
     -- Drop a redundant "l" on a path closed with "h"
-    let shape := if redundantL shape0 pts0 then shape0.take (shape0.length - 2) ++ ['h'] else shape0
+    let shape := if redundantL shape0 pts0 then shape0.take (shape0.length - redundantCut) ++ redundantTail else shape0
     let pts := if redundantL shape0 pts0 then pts0.dropLast else pts0
     classifyShape a shape pts tpath
 
